@@ -20,6 +20,7 @@ import (
 	"context"
 	"encoding/json"
 	"fmt"
+	"hash/fnv"
 	"math/big"
 	"net/url"
 	"sort"
@@ -34,6 +35,21 @@ func apiFamily(op Op) string {
 		return "v1"
 	}
 	return "v2"
+}
+
+// previewSpellings: every spelling of the v1 `preview` parameter that means "dry run" (v1 getCommandParameters:
+// YES or TRUE in any case, or 1).
+var previewSpellings = []string{"yes", "TRUE", "1", "YES", "true", "Yes", "True", "yEs"}
+
+// previewSpelling picks the spelling of a v1 dry run deterministically from the operation, so that the
+// different requests of a run exercise different spellings.
+func previewSpelling(op Op) string {
+	h := fnv.New32a()
+	fmt.Fprintf(h, "%s|%s|%d|%d|%s|%d", op.K, op.API, op.Now, op.ID, op.Ref, len(op.Ps))
+	for _, p := range op.Ps {
+		fmt.Fprintf(h, "|%s>%s:%s:%d", p.S, p.D, p.As, p.N)
+	}
+	return previewSpellings[int(h.Sum32()%uint32(len(previewSpellings)))]
 }
 
 func apiMode(op Op) string {
@@ -143,7 +159,7 @@ func (e *Env) Render(op Op) (HTTPReq, error) {
 	if fam == "v1" {
 		prefix = "/" + op.L
 		if op.Dry {
-			q.Set("preview", "true")
+			q.Set("preview", previewSpelling(op))
 		}
 	} else if op.Dry {
 		q.Set("dryRun", "true")
